@@ -41,6 +41,44 @@ DESC = {
  "C18-2": ("proxy ReadFrom returns before counting on error", "ReadFrom that fails after moving some bytes"),
  "C19-1": ("Context.Caller() freezes the global skip count at derivation time", "derive the logger, then change CallerSkipFrameCount, then log"),
  "C19-2": ("Msgf fast path for literal formats forwards to the exported Msg (one more frame)", "Msgf / log.Printf with a literal format and no arguments, hook-based caller"),
+ "C01-3": ("UTF-8 'fast path' in the string escaper passes structurally plausible but ill-formed sequences (surrogates, overlongs, > U+10FFFF) through raw", "a string/key/bytes value with ED A0 80, C0 80, F4 90 ..."),
+ "C01-4": ("appendUnixNanoTimes rewritten with a trailing comma overwritten by ']'", "an empty []time.Time under TimeFieldFormat UNIXMS/UNIXMICRO/UNIXNANO"),
+ "C02-3": ("integer durations computed as int64(float64(d)/float64(unit))", "DurationFieldInteger and |d| > 2^53 ns"),
+ "C02-4": ("'f'/'e' format choice moved into a helper, the precision == -1 guard lost", "FloatingPointPrecision >= 0 and |v| < 1e-6 or >= 1e21"),
+ "C03-3": ("the hook loop stops once an earlier hook discarded the event", "two hooks, the first discards"),
+ "C03-4": ("Context.Timestamp puts its hook in front of the inherited hooks", "a field-adding hook registered before With().Timestamp()"),
+ "C04-3": ("sampler check moved into newEvent: a sampler-rejected Panic()/Fatal() no longer fires", "Panic()/Fatal() on a logger whose sampler rejects that event"),
+ "C04-4": ("WithLevel collapsed to newEvent(level, nil): WithLevel(Disabled) returns a live event", "WithLevel(Disabled) with a hook / MsgFunc / marshaler observer"),
+ "C05-3": ("Logger.Hook appends to the hooks slice in place", "a parent with 3 hooks added one at a time, then two siblings"),
+ "C05-4": ("hlog.NewHandler drops the per-request With() copy (outside C05's tree language: UpdateContext on a logger not produced by With; a C18 violation)", "two overlapping requests through a chain with UpdateContext handlers"),
+ "C06-3": ("With() keeps the parent's slice when the context is >= 500 bytes", "several children of one fat parent alive at once"),
+ "C06-4": ("ConsoleWriter returns its buffer to the pool before Out.Write runs", "a destination that blocks while another goroutine renders"),
+ "C07-3": ("appendUnixTimes go through a 4-element scratch []int64", "Times with more than 4 elements under a UNIX TimeFieldFormat"),
+ "C07-4": ("Event.write returns early on a write error, before putEvent", "a failing destination, then another event"),
+ "C08-3": ("decoder reads payloads with Peek/Discard: anything over the 4096-byte bufio buffer fails", "one string-like value longer than 4096 bytes"),
+ "C08-4": ("encoder compacts IPv4-mapped addresses but keeps the 128-bit prefix length", "IPPrefix of ::ffff:a.b.c.d/N with N in 96..128"),
+ "C09-3": ("zero fast path in the float encoders (-0.0 == 0)", "a negative-zero float"),
+ "C09-4": ("AppendString sanitises invalid UTF-8 after writing the length head", "a string that is not valid UTF-8"),
+ "C10-3": ("TryNext fast-forwards by exactly one ring", "producers lapping a stalled consumer more than once"),
+ "C10-4": ("Write goes straight to the wrapped writer once the poller has exited", "Close, then Writes against a stuck sink"),
+ "C11-3": ("the stale-slot branch of TryNext alerts again", "producers lap a stalled consumer and stop inside the new lap"),
+ "C11-4": ("Logger.Fatal waits at most one second for Close", "Fatal with a backlog over a slow but alive sink"),
+ "C12-3": ("Waiter.Set takes the mutex around Broadcast (second round: via an Alerter that logs through the diode)", "ring overflow and an Alerter writing to the same diode"),
+ "C12-4": ("idle back-off in Poller.Next (interval << idle, cap 10)", "polling mode and a quiet period before a Write"),
+ "C13-3": ("burst windows laid back to back (resetAt + Period)", "an event strictly inside the period after a window end, then over-budget events"),
+ "C13-4": ("global level and sampling-disabled flag packed into one word; SetGlobalLevel stores the whole word", "DisableSampling(true) followed by SetGlobalLevel"),
+ "C14-3": ("MultiLevelWriter returns a sole destination unwrapped", "one destination and a short write"),
+ "C14-4": ("FilteredLevelWriter drops NoLevel/Disabled-level events ('sentinels')", "log.Log() / WithLevel(NoLevel) through a filtered destination"),
+ "C15-3": ("WriteLevel asks 'hold back?' before 'does this line trigger?'", "TriggerLevel <= ConditionalLevel and a line between them"),
+ "C15-4": ("Close() re-arms the writer (triggered = false)", "held line, trigger, Close, then a low line"),
+ "C16-3": ("single-pass orderFields picks FieldsOrder names from the event map", "a name in both FieldsOrder and FieldsExclude, or a part name in FieldsOrder"),
+ "C16-4": ("numeric timestamps read through Float64()", "TimeFieldFormat UNIXNANO with a sub-microsecond layout"),
+ "C17-3": ("a torn event cut at a pair boundary is closed and accepted", "a cut exactly between two key/value pairs of the top-level map"),
+ "C17-4": ("float16 support whose subnormal loop spins on negative zero", "the item f9 80 00"),
+ "C18-3": ("WithContext overwrites the *Logger already in the context in place", "request contexts descending from one context that carries a logger, overlapping requests"),
+ "C18-4": ("proxy WriteHeader forwards 1xx codes without latching", "WriteHeader(101) / WriteHeader(103) then 200"),
+ "C19-3": ("CallerSkipFrame sets instead of accumulating", "two helper layers that each call CallerSkipFrame"),
+ "C19-4": ("caller de-duplication flag not reset by newEvent (leaks through the pool)", "an Event.Caller() event finalized earlier, then a With().Caller() logger"),
 }
 rows = []
 for sid in sorted(os.listdir(os.path.join(V, "seeded"))):
